@@ -36,20 +36,63 @@ def struct_body(src, name):
     return src[m.end():end]
 
 
-def char_class(body, what):
+def param_name(src, fn):
+    """name of the single `char` parameter of `fn` (the check must not depend on what the parameter is called)"""
+    m = re.search(r"\b%s\s*\(\s*char\s+(\w+)\s*\)\s*const" % re.escape(fn), src)
+    if not m:
+        raise TranslateError("%s: signature `(char <name>) const` not found" % fn)
+    return m.group(1)
+
+
+def char_class(body, what, v="ch"):
     """`return (ch == ':' || ch == '_' || (ch >= 'A' && ch <= 'Z') ...)` -> (singles, ranges); any other shape is an error"""
     m = re.search(r"return\s*(.*?);", body, re.S)
     if not m:
         raise TranslateError("%s: no return expression" % what)
     e = m.group(1)
-    singles = [char_lit(x) for x in re.findall(r"ch\s*==\s*(%s)" % CH, e)]
-    ranges = [(char_lit(a), char_lit(b)) for a, b in re.findall(r"ch\s*>=\s*(%s)\s*&&\s*ch\s*<=\s*(%s)" % (CH, CH), e)]
-    rest = re.sub(r"ch\s*==\s*%s" % CH, "", e)
-    rest = re.sub(r"ch\s*>=\s*%s\s*&&\s*ch\s*<=\s*%s" % (CH, CH), "", rest)
-    rest = re.sub(r"isNameStart\s*\(\s*ch\s*\)", "", rest)
+    v = re.escape(v)
+    singles = [char_lit(x) for x in re.findall(r"\b%s\s*==\s*(%s)" % (v, CH), e)]
+    ranges = [(char_lit(a), char_lit(b)) for a, b in re.findall(r"\b%s\s*>=\s*(%s)\s*&&\s*%s\s*<=\s*(%s)" % (v, CH, v, CH), e)]
+    rest = re.sub(r"\b%s\s*==\s*%s" % (v, CH), "", e)
+    rest = re.sub(r"\b%s\s*>=\s*%s\s*&&\s*%s\s*<=\s*%s" % (v, CH, v, CH), "", rest)
+    rest = re.sub(r"isNameStart\s*\(\s*%s\s*\)" % v, "", rest)
     if re.sub(r"[\s()|]", "", rest):
         raise TranslateError("%s: unexpected shape: %r" % (what, e.strip()))
     return sorted(singles), sorted(ranges)
+
+
+READ_FUNCS = ["next", "peek", "get", "skipSpaces", "skipWhitespaceOutsideText", "matchString", "matchWordCaseInsensitive", "readName", "readUntil",
+              "readQuotedValue", "readAttributes", "readProcessingInstruction", "readComment", "readCData", "readDoctype", "readEndTag",
+              "readStartOrEmptyTag", "readText", "emitEof"]
+READ_RE = re.compile(r"peek\(\)|_input\[[^\]]*\]")
+GUARD_RE = re.compile(r"!?eof\(\)|[A-Za-z_][\w]*(?:\s*\+\s*\w+)?\s*(?:<=|>=|<|>)\s*_input\.size\(\)")
+
+
+def read_sites(src):
+    """(function, read expression, guard, code between the two) for every raw read of `_input` in the tokenizer.  The guard is the
+    nearest comparison with the input size (`eof()`, `x < _input.size()`, ...) that precedes the read inside the same function; `none`
+    when there is none.  The code between guard and read is part of the fact: it is what makes the guard dominate the read (`&&`, `||`,
+    `) { return ...; }`), so a guard that is dropped, moved or bypassed changes the table.  The model's table `Iora.Xml.readSites`
+    must equal this list (gen_conformance)."""
+    out = []
+    for fn in READ_FUNCS:
+        if fn == "next":
+            body = cxxscan.function_body(src, "next", signature_contains="next()")
+        elif fn in ("matchString", "matchWordCaseInsensitive"):
+            body = cxxscan.function_body(src, fn, signature_contains="const char")
+        else:
+            body = cxxscan.function_body(src, fn)
+        body = re.sub(r"\s+", " ", body)
+        guards = [(m.end(), re.sub(r"\s+", " ", m.group(0))) for m in GUARD_RE.finditer(body)]
+        for m in READ_RE.finditer(body):
+            g, between = "none", ""
+            for end, txt in guards:
+                if end <= m.start():
+                    g, between = txt, body[end:m.start()].strip()
+            out.append((fn, m.group(0), g, between))
+    if not out:
+        raise TranslateError("no read sites found")
+    return out
 
 
 def gen(repo):
@@ -77,7 +120,7 @@ def gen(repo):
     unused = [n for n in ("permissive", "namespaceProcessing") if not re.search(r"\b%s\b" % n, code_wo_struct)]
     # predefined entities: the if/else-if chain of decodeEntities
     dec = cxxscan.function_body(src, "decodeEntities", signature_contains="std::string &out")
-    chain = re.findall(r'if\s*\(\s*ent\s*==\s*"(\w+)"\s*\)\s*out\.push_back\(\s*(%s)\s*\)' % CH, dec)
+    chain = re.findall(r'if\s*\(\s*ent\s*==\s*"(\w+)"\s*\)\s*\{?\s*out\.push_back\(\s*(%s)\s*\)\s*;\s*\}?' % CH, dec)
     n_eq = len(re.findall(r"ent\s*==", dec))
     if not chain or n_eq != len(chain):
         raise TranslateError("decodeEntities: entity chain not recognised (%d comparisons, %d recognised)" % (n_eq, len(chain)))
@@ -91,14 +134,20 @@ def gen(repo):
     m = re.search(r"if\s*\(([^{}]*?)\)\s*\{\s*advance\(\);", sp, re.S)
     if not m:
         raise TranslateError("skipSpaces: shape not recognised")
-    ws = sorted(char_lit(x) for x in re.findall(r"ch\s*==\s*(%s)" % CH, m.group(1)))
-    if re.sub(r"ch\s*==\s*%s|[\s|]" % CH, "", m.group(1)):
+    mv = re.search(r"char\s+(\w+)\s*=\s*peek\(\)\s*;", sp)
+    if not mv:
+        raise TranslateError("skipSpaces: `char <v> = peek();` not found")
+    wv = re.escape(mv.group(1))
+    ws = sorted(char_lit(x) for x in re.findall(r"\b%s\s*==\s*(%s)" % (wv, CH), m.group(1)))
+    if re.sub(r"\b%s\s*==\s*%s|[\s|]" % (wv, CH), "", m.group(1)):
         raise TranslateError("skipSpaces: unexpected condition %r" % m.group(1))
-    ns_s, ns_r = char_class(cxxscan.function_body(src, "isNameStart"), "isNameStart")
+    ns_v = param_name(src, "isNameStart")
+    ns_s, ns_r = char_class(cxxscan.function_body(src, "isNameStart"), "isNameStart", ns_v)
+    nc_v = param_name(src, "isNameChar")
     nc_body = cxxscan.function_body(src, "isNameChar")
-    if not re.search(r"return\s+isNameStart\s*\(\s*ch\s*\)\s*\|\|", nc_body):
+    if not re.search(r"return\s+isNameStart\s*\(\s*%s\s*\)\s*\|\|" % re.escape(nc_v), nc_body):
         raise TranslateError("isNameChar: does not start from isNameStart")
-    nc_s, nc_r = char_class(nc_body, "isNameChar")
+    nc_s, nc_r = char_class(nc_body, "isNameChar", nc_v)
     # encodeUtf8 thresholds
     enc = cxxscan.function_body(src, "encodeUtf8", signature_contains="uint32_t cp")
     bounds = [cxxscan.const_eval(x) for x in re.findall(r"if\s*\(\s*cp\s*<=\s*(0x[0-9A-Fa-f]+)u?\s*\)", enc)]
@@ -135,6 +184,7 @@ def gen(repo):
     pi_end = re.findall(r'_input\.find\(\s*"([^"]*)"\s*,\s*_cur\s*\)', src)
     if lits != ["--", "[CDATA[", "DOCTYPE"] or until != ["-->", "]]>"] or pi_end != ["?>"]:
         raise TranslateError("markup literals changed: %r %r %r" % (lits, until, pi_end))
+    sites = read_sites(src)
     t = HEADER % F
     t += "namespace Iora.Gen.Xml\n"
     t += "/-- `enum class TokenKind` enumerators (name, value) -/\n"
@@ -162,5 +212,9 @@ def gen(repo):
     t += "def surrogateLo : Nat := %d\ndef surrogateHi : Nat := %d\n" % (cxxscan.const_eval(sur.group(1)), cxxscan.const_eval(sur.group(2)))
     t += "/-- every message passed to `fail()` or stored in an `Error`, first occurrence order -/\n"
     t += "def errorMessages : List String := [%s]\n" % ",\n  ".join(lean_str(x) for x in seen)
+    t += "/-- every raw read of the input in the tokenizer (`peek()`, `_input[...]`) in source order, with the guard that dominates it:\n"
+    t += "(function, read, nearest preceding comparison with the input size in that function or `none`, the code between the two) -/\n"
+    t += "def readSites : List (String × String × String × String) := [%s]\n" % ",\n  ".join(
+        "(%s, %s, %s, %s)" % (lean_str(a), lean_str(b), lean_str(c), lean_str(d)) for a, b, c, d in sites)
     t += "end Iora.Gen.Xml\n"
     return "IoraModel/Gen/Xml.lean", t
